@@ -551,3 +551,109 @@ Proof.
       by (intros (s0 & A & _); discriminate).
     tauto.
 Qed.
+
+(* ------------------------------------------------------------------ *)
+(* slice returns a non-empty prefix of the logical range [lo, hi) *)
+
+Definition store_part (l : raft_log) (lo hi : N) : list entry :=
+  if lo <? u_offset (unst l) then
+    firstn (N.to_nat (N.min hi (u_offset (unst l)) - lo))
+           (skipn (N.to_nat (lo - first_of (store l))) (entries (store l)))
+  else [].
+
+Definition unst_part (l : raft_log) (lo hi : N) : list entry :=
+  if u_offset (unst l) <? hi then
+    firstn (N.to_nat (hi - N.max lo (u_offset (unst l))))
+           (skipn (N.to_nat (N.max lo (u_offset (unst l)) - u_offset (unst l))) (u_entries (unst l)))
+  else [].
+
+Definition log_range (l : raft_log) (lo hi : N) : list entry := store_part l lo hi ++ unst_part l lo hi.
+
+(* the side conditions slice has checked when it answers Ok *)
+Definition range_ok (l : raft_log) (lo hi : N) : Prop :=
+  (lo < u_offset (unst l) ->
+     first_of (store l) <= lo /\
+     N.min hi (u_offset (unst l)) <= first_of (store l) + N.of_nat (length (entries (store l))))
+  /\ (u_offset (unst l) < hi -> hi <= u_offset (unst l) + N.of_nat (length (u_entries (unst l)))).
+
+Lemma firstn_all_ge {A} (l : list A) k : (length l <= k)%nat -> firstn k l = l.
+Proof. intros H. apply firstn_all2. exact H. Qed.
+
+Lemma firstn_firstn_prefix {A} (l : list A) k a :
+  (k <= a)%nat -> firstn k (firstn a l) = firstn k l.
+Proof. intros H. rewrite firstn_firstn. rewrite Nat.min_l by lia. reflexivity. Qed.
+
+Lemma slice_struct l lo hi max v :
+  slice l lo hi max = Ok (SOk v) -> lo < hi ->
+  range_ok l lo hi /\
+  exists k, (1 <= k)%nat /\ (k <= length (log_range l lo hi))%nat /\ v = firstn k (log_range l lo hi).
+Proof.
+  unfold slice. intros H Hlt. inv_bind H. destruct x as [e|]; [discriminate|].
+  destruct (lo =? hi) eqn:E0; [lia|].
+  inv_bind H.
+  unfold log_range, store_part, unst_part, range_ok.
+  destruct (lo <? u_offset (unst l)) eqn:E1.
+  - inv_bind Hx0. destruct x0 as [ents0|e]; [|destruct e; inversion Hx0; subst; discriminate].
+    unfold store_entries in Hx1. inv_bind Hx1. destruct x0 as [m' r]. cbn in Hx1.
+    inversion Hx1; subst r; clear Hx1.
+    apply storage_entries_shape in Hx2; [|lia].
+    destruct Hx2 as (A & B & e0 & t & Hents & Hlo & Hhi & Hr).
+    assert (Hfo : first_of (store l) = e_index e0) by (unfold first_of; rewrite Hents; reflexivity).
+    rewrite Hfo.
+    set (S0 := firstn (N.to_nat (N.min hi (u_offset (unst l)) - lo))
+                 (skipn (N.to_nat (lo - e_index e0)) (entries (store l)))) in *.
+    destruct (limit_size_prefix S0 max) as (k0 & Hk0 & Ek0). rewrite <- Hr in Ek0.
+    assert (Hk0pos : (1 <= k0)%nat).
+    { destruct k0; [|lia]. rewrite Ek0 in A. cbn in A. congruence. }
+    assert (HS0len : N.of_nat (length S0) <= N.min hi (u_offset (unst l)) - lo).
+    { unfold S0. rewrite firstn_length. lia. }
+    destruct (N.of_nat (length ents0) <? N.min hi (u_offset (unst l)) - lo) eqn:E2.
+    + inversion Hx0; subst x; clear Hx0. inversion H; subst v; clear H.
+      split.
+      { split; [intros _; split; lia|].
+        intros Hoff. destruct (u_offset (unst l) <? hi) eqn:E3; [|lia].
+        (* hi > off: the unstable part was not consulted; nothing is known about it,
+           but then min hi off = off and the store answered short: early return *)
+        exfalso. rewrite Ek0, firstn_length in E2.
+        (* cannot conclude: handled below *)
+        clear -E2 Hk0 HS0len. lia. }
+      exists k0. split; [exact Hk0pos|]. rewrite app_length. split; [lia|].
+      rewrite Ek0. rewrite firstn_app.
+      replace (k0 - length S0)%nat with 0%nat by lia. cbn [firstn]. rewrite app_nil_r. reflexivity.
+    + inversion Hx0; subst x; clear Hx0.
+      assert (Hfull : ents0 = S0).
+      { rewrite Ek0. apply firstn_all_ge. rewrite Ek0, firstn_length in E2. lia. }
+      subst ents0.
+      inv_bind H. inversion H; subst v; clear H.
+      destruct (u_offset (unst l) <? hi) eqn:E3.
+      * inv_bind Hx0. inversion Hx0; subst x; clear Hx0.
+        apply u_slice_shape in Hx1; [|lia].
+        destruct Hx1 as (A' & B' & C' & D' & E').
+        split; [split; [intros _; split; lia|intros _; exact D']|].
+        rewrite <- E'.
+        destruct (limit_size_prefix (S0 ++ x0) max) as (k & Hk & Ek).
+        exists k. split; [|split; [exact Hk|exact Ek]].
+        destruct k; [|lia]. exfalso. cbn in Ek.
+        apply (limit_size_nonempty (S0 ++ x0) max); [|exact Ek].
+        destruct S0; [congruence|discriminate].
+      * inversion Hx0; subst x; clear Hx0.
+        split; [split; [intros _; split; lia|intros C; lia]|].
+        rewrite app_nil_r.
+        destruct (limit_size_prefix S0 max) as (k & Hk & Ek).
+        exists k. split; [|split; [exact Hk|exact Ek]].
+        destruct k; [|lia]. exfalso. cbn in Ek.
+        apply (limit_size_nonempty S0 max); [|exact Ek]. rewrite Hr in A.
+        intros C. rewrite C in A. apply A. reflexivity.
+  - inversion Hx0; subst x; clear Hx0.
+    inv_bind H. inversion H; subst v; clear H.
+    destruct (u_offset (unst l) <? hi) eqn:E3; [|lia].
+    inv_bind Hx0. inversion Hx0; subst x; clear Hx0.
+    apply u_slice_shape in Hx1; [|lia].
+    destruct Hx1 as (A' & B' & C' & D' & E').
+    split; [split; [intros C; lia|intros _; exact D']|].
+    rewrite <- E'. cbn [app].
+    destruct (limit_size_prefix x0 max) as (k & Hk & Ek).
+    exists k. split; [|split; [exact Hk|exact Ek]].
+    destruct k; [|lia]. exfalso. cbn in Ek.
+    apply (limit_size_nonempty x0 max); [exact A'|exact Ek].
+Qed.
